@@ -85,6 +85,14 @@ Theorem reduce_encoded_extended_rejected : forall i2p0 buf0 data s x xs,
 Proof. exact encode_extended. Qed.
 Print Assumptions reduce_encoded_extended_rejected.
 
+(* Shape of every encoder output: PREFIX, body, 0 tag, and the 64-bit check hash of the input data
+   (the same [chain] as in reduce_accept_integrity) in little-endian bytes. *)
+Theorem reduce_encode_shape : forall data s,
+  encode data = Some s ->
+  exists body h, s = PREFIX ++ body ++ 0 :: le_bytes 8 h /\ chain data CHECK_HASH_SEED h /\ h < M64.
+Proof. exact encode_shape. Qed.
+Print Assumptions reduce_encode_shape.
+
 (* The encoder model is total: no dictionary chain walk, no loop ever exhausts its fuel (the hash
    chains are finite, duplicate-free, pairwise disjoint lists of handed-out table elements; the
    main loop advances at least one byte per iteration). *)
